@@ -151,7 +151,7 @@ class C02(Property):
     def config(self, rng, tier, faulty):
         cfg = {
             "max_steps": rng.pick([4, 6, 10]),
-            "max_rows": rng.pick([1, 3, 10, 60] if tier == "quick" else [1, 3, 10, 60, 200]),
+            "max_rows": rng.pick([1, 3, 10, 60, 60, 200] if tier == "quick" else [1, 3, 10, 60, 200, 200]),
             "max_cols": rng.pick([1, 3, 8, 30]),
             "max_blocks": rng.pick([1, 2, 4]),
             "env_rate": rng.pick([0.1, 0.2]),
@@ -203,7 +203,8 @@ class C02(Property):
             "seps": [rng.pick(["\t", " ", "  ", "   \t ", "\t\t", "      "]) for _ in range(rng.randrange(1, 4))],
             "lead": rng.pick(["", "", " ", "   ", "\t"]), "trail": rng.pick(["", "", " ", "  \t"]),
             "numbered": rng.chance(0.7), "numsep": rng.pick([" ", "  ", "\t"]),
-            "header_comment": rng.pick([[], ["version 30001"], ["created by relion", "2024-01-01 10:00"]]),
+            "header_comment": rng.pick([[], ["version 30001"], ["created by relion", "2024-01-01 10:00"]]) if not rng.chance(0.04)
+            else ["processing log line %05d: %s" % (i, "x" * 40) for i in range(rng.pick([1200, 2500]))],  # > 64 KiB of comments
             "block_comments": rng.pick([[], [], ["block comment"]]),
             "blank_before": rng.randrange(0, 3), "blank_after_spec": rng.randrange(0, 3),
             "blank_after_labels": rng.randrange(0, 3),
@@ -253,6 +254,8 @@ class C02(Property):
                 world.probes["crlf"] += 1
             if not step["layout"]["final_newline"]:
                 world.probes["no_final_newline"] += 1
+            if len(text) > 65536:
+                world.probes["file_larger_than_64KiB"] += 1
             if step["blocks"][-1]["nrows"] == 0:
                 world.probes["empty_last_block"] += 1
             return [path]
@@ -285,6 +288,8 @@ class C02(Property):
             exp = expected_from_frames(eff_blocks)
             world.ack(path, exp)
             self.check_text(world, path, exp)
+            if len(world.fs.get(path) or b"") > 65536:
+                world.probes["file_larger_than_64KiB"] += 1
         elif out.faulted:
             world.indeterminate(path)
         else:
